@@ -46,6 +46,7 @@ OF OR IN CONNECTION WITH THE SOFTWARE OR THE USE OR OTHER DEALINGS IN THE SOFTWA
 
 #include "CoreSMTSolver.h"
 #include <common/VerifTrace.h>
+#include <common/VerifSearch.h>
 
 #include <api/GlobalStop.h>
 #include <common/InternalException.h>
@@ -386,6 +387,7 @@ void CoreSMTSolver::cancelUntil(int level)
         qhead = trail_lim[level];
         trail.shrink(trail.size() - trail_lim[level]);
         trail_lim.shrink(trail_lim.size() - level);
+        VERIF_SEARCH("sk %p %d", static_cast<void const *>(this), trail.size());
 
         //if (first_model_found)
         theory_handler.backtrack(trail.size());
@@ -419,6 +421,7 @@ void CoreSMTSolver::cancelUntilVar( Var v )
 
     trail.shrink(trail.size( ) - c );
     qhead = trail.size( );
+    VERIF_SEARCH("sk %p %d", static_cast<void const *>(this), trail.size());
 
     if (decisionLevel( ) > level(v))
     {
@@ -1037,6 +1040,8 @@ void CoreSMTSolver::uncheckedEnqueue(Lit p, CRef from)
     assert(value(p) == l_Undef);
     assigns[var(p)] = lbool(!sign(p));
     vardata[var(p)] = mkVarData(from, decisionLevel());
+    VERIF_SEARCH("sq %p %d %d %d", static_cast<void const *>(this), var(p), trail.size(),
+                 (trail_lim.size() > 0 and trail_lim.last() == trail.size()) ? 1 : 0);
     trail.push(p);
 }
 
@@ -1402,6 +1407,7 @@ lbool CoreSMTSolver::search(int nof_conflicts)
     vec<Lit>    learnt_clause;
 
     starts++;
+    VERIF_SEARCH("ss %p %d %d %d", static_cast<void const *>(this), nof_conflicts, nVars(), trail.size());
 
 #ifdef STATISTICS
     const double start = cpuTime( );
@@ -1449,6 +1455,7 @@ lbool CoreSMTSolver::search(int nof_conflicts)
 
             conflicts++;
             conflictC++;
+            VERIF_SEARCH("sc %p", static_cast<void const *>(this));
             if (decisionLevel() == 0) {
                 return zeroLevelConflictHandler();
             }
@@ -1493,6 +1500,7 @@ lbool CoreSMTSolver::search(int nof_conflicts)
             if ((nof_conflicts >= 0 && conflictC >= nof_conflicts) || !withinBudget()) {
                 // Reached bound on number of conflicts:
                 progress_estimate = progressEstimate();
+                VERIF_SEARCH("sr %p %d %d", static_cast<void const *>(this), conflictC, nof_conflicts);
                 cancelUntil(0);
                 return l_Undef;
             }
